@@ -68,6 +68,20 @@ CORPUS = [
      "V.add((exp(f / 4.0) * sin(x[0]) + cos(c) * log(f + 2.0) + tan(f / 4.0)) * u * v * dx)"),
 ]
 
+# Two-space (Petrov-Galerkin) forms, run in EVERY quick run on fixed degree orderings: space-1 degree higher /
+# lower / equal, mixed per axis, 1-D to 3-D, identity and curved geometry.  (p0, p1, geometry)
+PG_FORMS = [
+    ('pg-1d-mass', "V = VForm(1)\nu, v = V.basisfuns(spaces=(0, 1))\nV.add(u * v * dx)",
+     [([1], [3], 'identity'), ([3], [1], 'identity'), ([2], [2], 'random'), ([1], [2], 'random'), ([3], [2], 'random'),
+      ([1], [3], 'random')]),
+    ('pg-2d-mass-stiffness', "V = VForm(2)\nu, v = V.basisfuns(spaces=(0, 1))\nV.add((u * v + inner(grad(u), grad(v))) * dx)",
+     [([1, 2], [3, 1], 'random'), ([2, 1], [1, 3], 'identity'), ([3, 1], [1, 2], 'random'), ([2, 2], [2, 2], 'identity'),
+      ([1, 1], [2, 3], 'random'), ([1, 1], [3, 3], 'identity'), ([3, 3], [1, 1], 'random')]),
+    ('pg-3d-mass', "V = VForm(3)\nu, v = V.basisfuns(spaces=(0, 1))\nV.add(u * v * dx)",
+     [([1, 1, 1], [2, 1, 3], 'random'), ([2, 3, 1], [1, 1, 2], 'identity'), ([2, 2, 2], [2, 2, 2], 'random'),
+      ([1, 2, 1], [2, 1, 2], 'identity')]),
+]
+
 SHIPPED = ['V = mass_vf(2)', 'V = mass_vf(3)', 'V = stiffness_vf(2)', 'V = stiffness_vf(3)', 'V = heat_st_vf(2)',
            'V = heat_st_vf(3)', 'V = wave_st_vf(2)', 'V = wave_st_vf(3)', 'V = divdiv_vf(2)', 'V = divdiv_vf(3)',
            'V = L2functional_vf(2)', 'V = L2functional_vf(3)', 'V = L2functional_vf(2, physical=True)',
@@ -108,6 +122,9 @@ Definition pd_ok (dim nd : nat) (D : list nat) (facs : list (nat * nat * nat)) :
   lteqb (gen_pderiv dim nd D) facs.
 Definition supp_ok (q p : nat) (kv : list Z) (supp : list (nat * nat)) (nnodes nspans : nat) : bool :=
   lpeqb (meshsupp q p kv) supp && Nat.eqb nnodes (q * nspans).
+(* the value of the generated `self.nqp = ...` expression on the degree lists of both spaces *)
+Definition nqp_ok (cases : list (list nat * list nat * nat)) : bool :=
+  forallb (fun c => Nat.eqb (nqp_spaces (fst (fst c)) (snd (fst c))) (snd c)) cases.
 Fixpoint bad (cs : list (nat * bool)) : list nat :=
   match cs with [] => [] | (k, b) :: r => if b then bad r else k :: bad r end.
 '''
@@ -156,8 +173,15 @@ def gen_layout_payload(ctx, forms):
             kn += [a + x] * rng.randint(1, p)
         kn += [a + 32] * (p + 1)
         kvs.append([p, [x / 32.0 for x in kn], rng.randint(1, 5)])
+    # degree lists of (space 0, space 1) on which the generated `self.nqp = ...` line is evaluated: every ordering
+    nqp_configs = []
+    for dim in (1, 2, 3):
+        for _ in range(6):
+            nqp_configs.append([[rng.randint(1, 4) for _ in range(dim)], [rng.randint(1, 4) for _ in range(dim)]])
+        nqp_configs += [[[1] * dim, [3] * dim], [[3] * dim, [1] * dim], [[2] * dim, [2] * dim],
+                        [[1] * dim, [1] * (dim - 1) + [4]], [[1] * (dim - 1) + [4], [1] * dim]]
     return {'mode': 'layout', 'sym_ns': list(range(0, 9)), 'varlists': varlists, 'pderivs': pderivs, 'kvs': kvs,
-            'forms': forms}
+            'forms': forms, 'nqp_configs': nqp_configs}
 
 
 def layout_cases(payload, out):
@@ -214,6 +238,12 @@ def form_layout_cases(spec, r):
             cases.append(('form %s: var_ref of %s in %s' % (spec['id'], v['name'], arr),
                           '%s && slot_ok %s %d %s' % (cbool(okfmt), vars_, k, cidx(sl)),
                           {'code': spec['code'], 'array': arr, 'var': v}))
+    if r.get('nqp_values') is not None:
+        ok = r.get('nqp_expr') is not None and len(r['nqp_values']) > 0 and all(v[2] >= 0 for v in r['nqp_values'])
+        cases.append(('form %s: nqp' % spec['id'],
+                      '%s && nqp_ok %s' % (cbool(ok), clist(['(%s, %s, %d)' % (clist(a), clist(b), max(v, 0)) for a, b, v in r['nqp_values']])),
+                      {'code': spec['code'], 'generated_line': 'self.nqp = %s' % r.get('nqp_expr'), 'one_space': r.get('one_space'),
+                       'impl': r['nqp_values'], 'expected': 'max degree over the knot vectors of BOTH spaces + 1'}))
     for pdv in r['pderivs']:
         facs = pdv['factors']
         axes_ok = all(f[0] == f[3] for f in facs)
@@ -384,7 +414,10 @@ def judge(ctx, spec, res, stats):
     for inst in res.get('instances', []):
         ist = inst['status']
         stats['inst:' + ist.split(':')[0]] += 1
-        key = (spec['code'], inst.get('seed'))
+        key = (spec['code'], inst.get('seed'), json.dumps(inst.get('cfg'), sort_keys=True))
+        if inst.get('cfg'):
+            rep = dict(rep, cfg=inst['cfg'])
+            stats['two_space_orderings'] += 1
         if ist.startswith(('InstantiateFail', 'AssembleFail')):
             ctx.count(key, nontrivial=True)
             ctx.report('impl:%s:%s' % (ist.replace(':', '-').lower(), res['header']['boundary'] and 'boundary' or 'volume'),
@@ -457,9 +490,12 @@ def run(ctx):
         s['id'] = 'g%04d' % k
     corpus = [{'id': name, 'code': code, 'stream': 'corpus'} for name, code in CORPUS]
     shipped = [{'id': 'shipped%02d' % k, 'code': c, 'stream': 'shipped'} for k, c in enumerate(SHIPPED)]
+    pgforms = [{'id': name, 'code': code, 'stream': 'corpus', 'seeds': [],
+                'configs': [{'seed': rng.randrange(10 ** 6), 'p0': p0, 'p1': p1, 'geo': geo} for (p0, p1, geo) in cfgs]}
+               for name, code, cfgs in PG_FORMS]
 
     # ---- layers 2/3: exact tie ------------------------------------------------------------------------------------
-    lay_forms = corpus + shipped + gspecs
+    lay_forms = corpus + pgforms + shipped + gspecs
     payload = gen_layout_payload(ctx, [{'id': s['id'], 'code': s['code']} for s in lay_forms])
     t0 = time.time()
     lout = ctx.impl.run(DRIVER, payload, timeout=1500)
@@ -541,15 +577,15 @@ def run(ctx):
     for s in fresh:
         s['seeds'] = [rng.randrange(10 ** 6) for _ in range(n_inst)]
     t0 = time.time()
-    todo = shipped + corpus + fresh
+    todo = shipped + corpus + pgforms + fresh
     cres = run_asm(ctx, todo, xdg, timeout=6000 if thorough else 3000)
     for s, r in zip(todo, cres):
         if s['stream'] == 'shipped' and r['status'] == 'Ok' and not r.get('shipped'):
             ctx.broken.append('%s is not served by a shipped assembler of pyiga.assemblers' % s['code'])
         judge(ctx, s, r, stats)
     tb = [r.get('t_build', 0) for r in cres if not r.get('shipped')]
-    log('[C01] %d shipped x %d instances, %d corpus + %d fresh compiled forms x %d instances in %.0fs (build times %s)' % (
-        len(shipped), n_sh, len(corpus), len(fresh), n_inst, time.time() - t0, tb))
+    log('[C01] %d shipped x %d instances, %d corpus + %d fresh compiled forms x %d instances, %d two-space forms on %d fixed degree orderings in %.0fs (build times %s)' % (
+        len(shipped), n_sh, len(corpus), len(fresh), n_inst, len(pgforms), sum(len(s['configs']) for s in pgforms), time.time() - t0, tb))
     # harness self-test of the oracle comparison: the implementation's values scaled by (1 + 1e-7) must be flagged
     st = dict(shipped[0], id='selftest', seeds=[1])
     sr = run_asm(ctx, [st], xdg, extra={'selftest_scale': 1e-7})[0]
@@ -560,7 +596,7 @@ def run(ctx):
         ctx.broken.append('harness self-test: a relative perturbation of 1e-7 of the mass matrix was not flagged by the oracle comparison')
 
     ctx.cov['traces_validated_against_impl'] = stats['inst:Ok']
-    ctx.cov['forms'] = {'shipped': len(shipped), 'corpus': len(corpus), 'fresh_compiled': len(fresh), 'generated_for_layout': len(gspecs),
+    ctx.cov['forms'] = {'shipped': len(shipped), 'corpus': len(corpus), 'two_space': len(pgforms), 'fresh_compiled': len(fresh), 'generated_for_layout': len(gspecs),
                         'accepted_by_generator': len(accepted)}
     ctx.cov['stats'] = dict(stats)
     ctx.cov['rounding_bound'] = '1e-10 * running magnitude of the evaluation (sum over the joint-support nodes), + 1e-300'
@@ -581,6 +617,8 @@ def run(ctx):
 def replay(ctx, data):
     rep = data.get('replay', {})
     spec = {'id': 'replay', 'code': rep['code'], 'stream': rep.get('stream', 'replay'), 'seeds': [rep.get('seed', 1)]}
+    if rep.get('cfg'):
+        spec['seeds'], spec['configs'] = [], [rep['cfg']]
     xdg = xdg_dir(ctx)
     stats = collections.Counter()
     r = run_asm(ctx, [spec], xdg)[0]
